@@ -104,6 +104,7 @@ def explore_vm(linked, prog, fname, inst, label):
         except RecursionError:
             raise symx.Abort("cut")
         except Exception as e:  # noqa: BLE001 -- outcome of the code under analysis
+            symx.reraise_watchdog(e)
             return e
         return None
 
